@@ -192,6 +192,19 @@ PROPS["C18"] = Prop(
 )
 PARAMS["C18"] = {"rule": "one const item (final value validated by the interpreter, contents compared with the same call at run time and with natively computed expectations) per const fn x length x argument: chunks_from_slice(_mut) for N in {0..5,7,8} x every slice length 0..=3N+2 (N in {16,17,33}: boundary lengths in quick, all in thorough); from_slice/from_mut_slice/try_ forms incl. the documented panics (expected E0080 'evaluation panicked'); slice_from_chunks(_mut), from_chunks(_mut), into_chunks(_mut) for N in {0..5,7,8} x 0..=3 chunks; from_array/into_array, as_slice, as_mut_slice (written through), uninit+assume_init, len over the lattice up to 1024; element types u8, u32, (u8,u16), (); every mutable form writes through the result."}
 
+PROPS["C12"] = Prop(
+    "C12", ["GA.Props.C12"],
+    [Engine("types", scen.types, runner=corpora.types_runner,
+            sig=lambda l: " ".join(t for t in l.split() if t.split("=")[0] in ("op", "form", "trait", "target", "prog")))],
+    trusted=[KERNEL, TRANSLATOR, HARNESS,
+             "modelled, not verified: rustc's trait solver and borrow checker (they are the implementation side of the correspondence); typenum's operators are read as arithmetic with definedness (Sub1 needs >= 1, Diff<N,K> needs K <= N, Quot needs a non-zero divisor); lifetime elision rules; `&X: Send iff X: Sync`",
+             "the sealed-ness of ArrayLength is observed only through the corpus (no foreign impl can be written)"],
+    assumptions=["result lengths are observed through type annotations: a program annotated with the right length compiles, with any other length it does not",
+                 "lengths in the corpus are 0..=4 (0..=6 thorough), tuples 0..=13; the theorems cover all lengths"],
+    nontrivial=lambda s, impl: impl.startswith("reject"),
+)
+PARAMS["C12"] = {"rule": "accept/reject pairs differing in one length, bound or lifetime: append/prepend/pop_back/pop_front/remove/swap_remove/split (owned, &, &mut)/concat/flatten/unflatten/zip for all length pairs in 0..=4, each with inferred result and with the right, +1 and -1 annotated result length; ==, partial_cmp, cmp, from_array/into_array, From/Into/AsRef/AsMut with native arrays, from/into_chunks(_mut) for all (N, U) pairs; tuples 0..=13 fields vs lengths 0..=13; Send/Sync/Clone/Copy of the array, a reference and the by-value iterator for element types u8, Rc, Cell, MutexGuard, String and a non-Clone type at N in {0,1,3,4}; for each of 36 reference-returning APIs: use in scope (accept), return as 'static (reject), overwrite the source while the view lives (reject), two live views (reject for &mut, accept for &). Non-trivial = a rejected program."}
+
 PROPS["C17"] = Prop(
     "C17", ["GA.Props.C17"],
     [Engine("serde", scen.serde, sig=lambda l: l.split()[0] + "/" + ("script" if "steps=" in l else "fmt"))],
